@@ -243,6 +243,12 @@ impl<C: ConfigurationAccess> PciRoot<C> {
                 .read_word(device_function, BAR0_OFFSET + 4 * bar_index),
         );
 
+        // The upper 16 bits of an I/O BAR may be hardwired to zero, in which case they must be
+        // ignored when working out the size.
+        if io_space && size_mask & 0x0000_fffc != 0 && size_mask & 0xffff_0000 == 0 {
+            size_mask |= 0xffff_0000;
+        }
+
         // Read the upper 32 bits of 64-bit memory BARs.
         let (address_top, size_top) = if bar_orig & 0b111 == 0b100 {
             if bar_index >= 5 {
